@@ -48,12 +48,12 @@ fn recover_after_junk<const J: usize>() {
 
     let r = it.try_recover();
 
-    assert!(r.is_ok(), "C14a: recovery succeeds when a valid tag follows the junk");
-    assert!(it.verif_current_offset() == start_abs + J, "C14a: recovery stops exactly at the tag that follows the junk");
-    assert!(it.verif_stack().len() == 1 && it.verif_stack()[0].size == EBMLSize::Known(root_size + J), "C14a: enclosing known sizes grow by the junk length");
-    assert!(it.verif_stack()[0].data_start == base + 2 && it.verif_stack()[0].tag_start == base, "C14a: enclosing master's offsets are untouched");
+    assert!(r.is_ok(), "C14/C05a: recovery succeeds when a valid tag follows the junk");
+    assert!(it.verif_current_offset() == start_abs + J, "C14/C05a: recovery stops exactly at the tag that follows the junk");
+    assert!(it.verif_stack().len() == 1 && it.verif_stack()[0].size == EBMLSize::Known(root_size + J), "C14/C05a: enclosing known sizes grow by the junk length");
+    assert!(it.verif_stack()[0].data_start == base + 2 && it.verif_stack()[0].tag_start == base, "C14/C05a: enclosing master's offsets are untouched");
     let h = it.verif_peek_valid_tag_header();
-    assert!(matches!(&h, Ok((id, _, EBMLSize::Known(1), 2)) if *id == U), "C14a: the next header is the planted tag");
+    assert!(matches!(&h, Ok((id, _, EBMLSize::Known(1), 2)) if *id == U), "C14/C05a: the next header is the planted tag");
     core::mem::forget(h);
     core::mem::forget(r);
     core::mem::forget(it);
@@ -88,12 +88,12 @@ fn recover_arbitrary<const K: usize>() {
     let start_abs = base + cursor;
     let r = it.try_recover();
     kani::cover!(K < 3 || (r.is_ok() && it.verif_current_offset() == start_abs + 1), "recovered after one byte reached");
-    assert!(it.verif_current_offset() >= start_abs, "C14: try_recover never moves backwards");
-    assert!(it.verif_current_offset() <= start_abs + K, "C14: try_recover never moves past the end of the input");
+    assert!(it.verif_current_offset() >= start_abs, "C14/C05: try_recover never moves backwards");
+    assert!(it.verif_current_offset() <= start_abs + K, "C14/C05: try_recover never moves past the end of the input");
     match &r {
         Ok(()) => {}
         Err(e) => {
-            assert!(matches!(kind_of(e), ErrKind::Eof { .. } | ErrKind::Read), "C14: try_recover fails only with end of input or a read error");
+            assert!(matches!(kind_of(e), ErrKind::Eof { .. } | ErrKind::Read), "C14/C05: try_recover fails only with end of input or a read error");
             kani::cover!(true, "end of input reached");
         }
     }
